@@ -29,7 +29,7 @@ W2 == << <<65,84,84,71,67,65,65,67,71,84>> >>                        \* reverse 
 W3 == << <<71,71,78,71,71,65,84,67,67>> >>                           \* contains N; GGATCC window
 WeedPool == <<W1, W2, W3>>
 
-FilesUsed == {"a", "b", "m"}
+FilesUsed == {"a", "b", "m", "n"}
 
 OptsAll == {[minf |-> mf, filter |-> fl, ambigMissing |-> am, ambigMask |-> mk, noGapOnly |-> FALSE] :
               mf \in {0, 1, 2}, fl \in Filters, am \in BOOLEAN, mk \in BOOLEAN}    \* minf in halves: 0, 1/2, 1
@@ -44,9 +44,14 @@ Opts == IF OptSet = "all" THEN OptsAll ELSE OptsQuick
 ThrOf(o, n) == [thr |-> (n * o.minf) \div 2, filter |-> o.filter, ambigMissing |-> o.ambigMissing,
                 ambigMask |-> o.ambigMask, noGapOnly |-> o.noGapOnly]
 
+\* a, b are built; m = merge(a, b) already exists, so that histories of two operations reach
+\* "weed --filter-ambig-as-missing, then delete" on a four-sample file with an ambiguity code
+TA == BuildTable(<<S1, S2>>, <<"s1", "s2">>, K, TRUE)
+TB == BuildTable(<<S3, S4>>, <<"s3", "s4">>, K, TRUE)
 Init == /\ files = [f \in FilesUsed |->
-                      IF f = "a" THEN Fresh(BuildTable(<<S1, S2>>, <<"s1", "s2">>, K, TRUE))
-                      ELSE IF f = "b" THEN Fresh(BuildTable(<<S3, S4>>, <<"s3", "s4">>, K, TRUE))
+                      IF f = "a" THEN Fresh(TA)
+                      ELSE IF f = "b" THEN Fresh(TB)
+                      ELSE IF f = "m" THEN Fresh(Merge2(TA, TB))
                       ELSE NoFile]
         /\ hist = <<>>
 
@@ -55,11 +60,11 @@ TableJson(f) == IF Present(f) THEN [names |-> Content(f).names, rows |-> SetToSe
 Log(op, f) == hist' = Append(hist, [op |-> op, file |-> f, after |-> TableJson(f)'])
 
 DoMerge == \E ins \in {<<"a", "b">>, <<"b", "a">>} :
-              /\ ~Present("m")
-              /\ Merge(ins, "m")
-              /\ hist' = Append(hist, [op |-> [do |-> "merge", ins |-> ins], file |-> "m",
-                                       after |-> [names |-> Logical(files'["m"]).names,
-                                                  rows |-> SetToSeq(Logical(files'["m"]).rows)]])
+              /\ ~Present("n")
+              /\ Merge(ins, "n")
+              /\ hist' = Append(hist, [op |-> [do |-> "merge", ins |-> ins], file |-> "n",
+                                       after |-> [names |-> Logical(files'["n"]).names,
+                                                  rows |-> SetToSeq(Logical(files'["n"]).rows)]])
 DoDelete == \E f \in FilesUsed : Present(f) /\
               \E D \in (SUBSET {Content(f).names[i] : i \in 1..NSamples(Content(f))}) \ {{}} :
                  /\ Cardinality(D) <= 2
@@ -88,17 +93,18 @@ StepMatchesDecl ==
       LET h == hist[Len(hist)] IN TRUE
 ObsInv == Observational
 
-\* merge = joint build (C07), in either argument order
+\* merge = joint build (C07), in either argument order; the current inputs a, b may have been
+\* modified by earlier operations, so the joint build is checked when the merge comes first
 MergeIsJointBuild ==
-   Present("m") /\ Len(hist) = 1 /\ hist[1].op.do = "merge" =>
+   Present("n") /\ Len(hist) = 1 /\ hist[1].op.do = "merge" =>
       LET ab == hist[1].op.ins = <<"a", "b">> IN
-      Content("m") = IF ab THEN BuildTable(<<S1, S2, S3, S4>>, <<"s1", "s2", "s3", "s4">>, K, TRUE)
+      Content("n") = IF ab THEN BuildTable(<<S1, S2, S3, S4>>, <<"s1", "s2", "s3", "s4">>, K, TRUE)
                      ELSE BuildTable(<<S3, S4, S1, S2>>, <<"s3", "s4", "s1", "s2">>, K, TRUE)
-\* delete = build of the remaining samples (C08), directly after the merge
+InitialMergeIsJointBuild == hist = <<>> => Content("m") = BuildTable(<<S1, S2, S3, S4>>, <<"s1", "s2", "s3", "s4">>, K, TRUE)
+\* delete = build of the remaining samples (C08), as the first operation on the merged file
 DeleteIsBuildOfRest ==
-   Len(hist) = 2 /\ hist[1].op.do = "merge" /\ hist[1].op.ins = <<"a", "b">> /\ hist[2].op.do = "delete"
-      /\ hist[2].file = "m" =>
-      LET D == {hist[2].op.names[i] : i \in 1..Len(hist[2].op.names)}
+   Len(hist) = 1 /\ hist[1].op.do = "delete" /\ hist[1].file = "m" =>
+      LET D == {hist[1].op.names[i] : i \in 1..Len(hist[1].op.names)}
           all == <<S1, S2, S3, S4>>   nm == <<"s1", "s2", "s3", "s4">>
           keep == SetToSortSeq({i \in 1..4 : nm[i] \notin D}, <)
       IN Content("m") = BuildTable([j \in 1..Len(keep) |-> all[keep[j]]], [j \in 1..Len(keep) |-> nm[keep[j]]], K, TRUE)
